@@ -145,12 +145,15 @@ def run(sim_bin, work, tier, seed, pool):
     if quick:
         jobs.append(pool.submit(graph_replay, sim_bin, work, "two", {"MaxTerm": 2, "Families": "QuickTwo"}, 3000, seed, 4, 6))
     else:
-        for k in (1, 2, 3, 4):
-            jobs.append(pool.submit(graph_replay, sim_bin, work, "three%d" % k, {"MaxTerm": 3, "Families": "Only%d" % k}, 20000, seed * 10 + k, 4, 6, 3300, "10g"))   # 4g: GC overhead limit exceeded (rc 255) at 300-500 k states
-        jobs.append(pool.submit(graph_replay, sim_bin, work, "two", {"MaxTerm": 2, "Families": "TwoLeaders"}, 20000, seed, 4, 6))
+        # every transition of the two-leader families is replayed (2.05 M). The three-leader families (333-505 k states, 10-15 M
+        # transitions each) are model-checked only: TLC keeps what PrintT printed in memory, and 10 M transition records
+        # exhausted a 10 GB heap after 30 minutes
+        jobs.append(pool.submit(graph_replay, sim_bin, work, "two", {"MaxTerm": 2, "Families": "TwoLeaders"}, 20000, seed, 4, 6, 3000, "8g"))
     mo = []
     if not quick:
-        mo.append(pool.submit(model_only, work, "all3", {"MaxTerm": 3, "Families": "AllFamilies3"}, 8, 2400))
+        for k in (1, 2, 3, 4):
+            mo.append(pool.submit(model_only, work, "three%d" % k, {"MaxTerm": 3, "Families": "Only%d" % k}, 6, 2400))
+        mo.append(pool.submit(model_only, work, "all3", {"MaxTerm": 3, "Families": "AllFamilies3"}, 8, 3000))
     # self-test: the model with the defect "the outstanding Ready reads the array truncateAndAppend writes" must break the
     # clauses (vacuity guard for the invariants; the binding's own guard is seeded/C15-r5)
     st1 = pool.submit(model_only, work, "alias", {"MaxTerm": 2, "Families": "QuickTwo", "Alias": True}, 2, 600, True)
